@@ -319,6 +319,35 @@ def rule_buffer(ctx):
     ctx.ob(R, "push", okm and oke and okr, "push(buf): n = min(capacity(), buf.len()); end += n; returns n" if okm and oke and okr else "push deviates (min %s, end %s, ret %s)" % (okm, oke, okr), f.loc())
 
 
+def rule_flush_progress(ctx):
+    R = "C13.7"
+    ctx.rule(R, "flush progress is recorded at once: in poll_flush_frame every successful write of n bytes to the transport is followed by frame.take(n) before the function can return (also with Pending) - progress kept only in a local would be lost on Pending and the frame prefix would be sent twice")
+    f = fn1(ctx, "::poll_flush_frame")
+    T = ctx.T(f)
+    cfg = ctx.cfg(f)
+    e = Q.success_edges(ctx, f, lambda b: b[0] == "call" and b[1].endswith("AsyncWrite::poll_write"))
+    takes = [c["bb"] for c in T.calls() if c["q"] == BUF + "::take" and "frame" in show(T.args_of(c)[0])]
+    ctx.floor(R, "transport write success edges", len(e), 1)
+    ctx.floor(R, "frame.take sites", len(takes), 1)
+    # non-error exits: the return place is set to Pending or Ready(Ok(..)); error exits (write error, WriteZero) are fine
+    RL = Q.ret_locals(f)
+    exits = []
+    for bi, blk in enumerate(f.blocks):
+        for st in blk["s"]:
+            if st["k"] == "assign" and not st["p"].get("pr") and st["p"]["l"] in RL and st["r"]["k"] == "agg":
+                v = T.rvalue(st["r"])
+                if v[0] == "agg" and (v[2] == "Pending" or (v[2] == "Ready" and not (v[3] and v[3][0][1][0] == "agg" and v[3][0][1][2] == "Err"))):
+                    exits.append(bi)
+    starts = set(t for _, t in e)
+    bad = False
+    for st in starts:
+        r = cfg.reach_from([st], avoid_blocks=frozenset(takes))
+        if set(exits) & r:
+            bad = True
+    ctx.ob(R, "take after every successful write", not bad, "after a successful transport write the written bytes leave the frame buffer before any return" if not bad else
+           "poll_flush_frame can return (e.g. Pending on the next write) after a successful partial write without frame.take(n): the next poll resends bytes that are already on the wire", f.loc())
+
+
 def rule_write_accounting(ctx):
     R = "C13.6"
     ctx.rule(R, "write accounting (AsyncWrite contract): once poll_write has accepted bytes (payload.push) it returns Ready(Ok(n)) with n the number accepted - no Pending or error return is reachable after the push, otherwise the caller retries bytes that are already buffered and the peer receives them twice")
@@ -356,4 +385,4 @@ def rule_write_accounting(ctx):
         ctx.ob(R, "reported count is the accepted count", okn, "poll_write returns Ready(Ok(n)) with n = payload.push(buf)" if okn else "the byte count reported by poll_write is not the result of payload.push", f.loc())
 
 
-RULES = [("C13.1", rule_constants), ("C13.2", rule_reader), ("C13.3", rule_flush_before_reuse), ("C13.4", rule_failures), ("C13.5", rule_buffer), ("C13.6", rule_write_accounting)]
+RULES = [("C13.1", rule_constants), ("C13.2", rule_reader), ("C13.3", rule_flush_before_reuse), ("C13.4", rule_failures), ("C13.5", rule_buffer), ("C13.6", rule_write_accounting), ("C13.7", rule_flush_progress)]
